@@ -57,6 +57,14 @@ func main() {
 		o.WorkerTimeout = timeout
 		o.Level = levelOf(o.Property)
 		o.CrashIsViolation = crashIsViolation(o.Property)
+		if rb := os.Getenv("VH_RACE_BIN"); rb != "" && usesRaceBuild(o.Property, o.Tier) {
+			if _, err := os.Stat(rb); err != nil {
+				fmt.Println("INCONCLUSIVE: race build missing:", err)
+				os.Exit(2)
+			}
+			o.Self = rb
+			o.RaceLog = "RACELOG"
+		}
 		if o.WorkDir == "" {
 			d, err := os.MkdirTemp("", "vhrun")
 			if err != nil {
@@ -65,6 +73,9 @@ func main() {
 			}
 			defer os.RemoveAll(d)
 			o.WorkDir = d
+		}
+		if o.RaceLog == "RACELOG" {
+			o.RaceLog = o.WorkDir + "/race"
 		}
 		os.Exit(core.RunParent(reg, o))
 	case "replay":
